@@ -271,8 +271,9 @@ def r2_validate_before_effect_py(repo=None):
     spec = [("DigitalRFWriter.rf_write", "_py_rf_write_hdf5.rf_write", 1),
             ("DigitalRFWriter.rf_write_blocks", "_py_rf_write_hdf5.rf_block_write", 7)]
     for q, ext_name, min_guards in spec:
-        fn = m.fn(q)
-        g = m.cfg(q)
+        fv = m.flat(q)
+        fn = fv.fn()
+        g = fv.cfg()
         E = [n for n in g.nodes if any(pyfront.call_name(c) == ext_name for c in pyfront.node_calls(n))]
         if len(E) != 1:
             raise AnalysisError("%s: expected exactly one call of %s, found %d" % (q, ext_name, len(E)))
